@@ -7,5 +7,5 @@ From GI Require Import Lib.Bytes Txtar.Txtar TxtarWrite.Path TxtarWrite.TxtarWri
 Extraction Language OCaml.
 Extraction "extracted/txtarwrite/model.ml" Byte.of_N Byte.to_N
   clean join dir_of is_abs parent_str resolve
-  write write_gen created_mode extract savedir txtar_c entry_name savedir_entry unquote_names restored
+  write write_gen created_mode extract savedir savedir_tree txtar_c entry_name savedir_entry unquote_names restored
   parse format.
